@@ -13,7 +13,7 @@ PROP = {
             "non-trivial = all-codes baseline has >= 8 diagnostics and the config has >= 2 entries",
     "min_nontrivial": {"quick": 25000, "thorough": 1000000},
     "max_secs": {"quick": 50, "thorough": 900},
-    "require_clauses": ["a:disable-of-firing-code", "a:file-enable-beats-disable", "b:enables-of-firing-code", "c:severity-of-firing-code",
+    "require_clauses": ["b:enables-anchor", "a:disable-of-firing-code", "a:file-enable-beats-disable", "b:enables-of-firing-code", "c:severity-of-firing-code",
                         "d:globals-hit", "d:globalsRegex-hit", "e:meta-file-silent", "e:library-file-silent", "f:enable-false",
                         "std-files-silent", "late-config-switch"],
     "assumptions": COMMON_ASSUME + [
